@@ -616,6 +616,22 @@ func (p *proverCtx) lin(v ssa.Value) *linexp {
 			if fwd := forwardedStore(x); fwd != nil {
 				return p.lin(fwd)
 			}
+			// a field of the current element of a loop over a local constant table: one of the table's constants
+			if vals, ok := constTableField(x); ok && isInteger(x.Type()) {
+				lo, hi := vals[0], vals[0]
+				for _, t := range vals {
+					if t < lo {
+						lo = t
+					}
+					if t > hi {
+						hi = t
+					}
+				}
+				e := p.varFor(lvar{v: v, kind: 'v'})
+				p.addFact(e.addConst(-lo), "smallest constant of the local table")
+				p.addFact(e.scale(-1).addConst(hi), "largest constant of the local table")
+				return e
+			}
 			if fa, ok := x.X.(*ssa.FieldAddr); ok {
 				if !p.stableField(fa) && isInteger(x.Type()) {
 					if l1 := earlierSameLoad(x); l1 != nil {
